@@ -82,6 +82,10 @@ def run_case(args):
         # populate with several inserts / deletes / compactions; unique keys
         used = set()
         keycols = [i for i, c in enumerate(t.cols) if c.pk or getattr(c, "ckey", False)]
+        # a third of the keyed tables hold duplicate key values (PRIMARY KEY is a sort key here, uniqueness is not
+        # enforced): ORDER BY <key>, <other column> then needs a real sort inside every key group
+        dup_keys = bool(keycols) and rng.random() < 0.35
+        lo, hi = (-3, 9) if dup_keys else (-30, 120)
         nins = rng.randint(1, 6)
         for _ in range(nins):
             rows = []
@@ -90,14 +94,14 @@ def run_case(args):
                 for i in keycols:
                     c = t.cols[i]
                     if c.typ in ("INT", "BIGINT"):
-                        row[i] = rng.randint(-30, 120)
+                        row[i] = rng.randint(lo, hi)
                     elif c.typ == "SMALLINT":
-                        row[i] = rng.randint(-30, 120)
+                        row[i] = rng.randint(lo, hi)
                     elif c.typ == "VARCHAR":
-                        row[i] = rng.choice("abcdefgh") + str(rng.randint(0, 40))
+                        row[i] = rng.choice("abcdefgh"[:3 if dup_keys else 8]) + str(rng.randint(0, 3 if dup_keys else 40))
                 if keycols:
                     k = tuple(row[i] for i in keycols)
-                    if k in used or any(x is None for x in k):
+                    if (k in used and not dup_keys) or any(x is None for x in k):
                         continue
                     used.add(k)
                 rows.append(row)
@@ -118,6 +122,12 @@ def run_case(args):
                 stmts.append("<tick>")
                 rl.cmd({"op": "tick", "secs": 1})
         res["rowsets_hint"] = nins
+        if rng.random() < 0.3:
+            # planned with a wrong row estimate (the optimizer may only use it to choose between equivalent plans)
+            s = f"SET mock_rowcount_t = {rng.choice([0, 1, 3, 10, 1000])}"
+            stmts.append(s)
+            rl.sql(s)
+            res["feats"]["mocked-row-estimate"] = 1
         for qi in range(nq):
             # base query
             where = f" WHERE {gen_pred(rng, t).sql}" if rng.random() < 0.4 else ""
@@ -139,6 +149,11 @@ def run_case(args):
             pkpos = [j for j, i in enumerate(proj_idx) if i in keycols]
             if pkpos and rng.random() < 0.5:
                 keys = [(pkpos[0], rng.random() < 0.3)] + [k for k in keys if k[0] != pkpos[0]][: rng.randint(0, 1)]
+                if dup_keys and len(keys) == 1 and len(keyable) > 1:
+                    # the key first, then a column that has to order the rows of one key group
+                    keys.append((rng.choice([i for i in keyable if i != pkpos[0]]), rng.random() < 0.4))
+                if dup_keys and len(keys) > 1:
+                    res["feats"]["order-by-duplicate-key-then-column"] = res["feats"].get("order-by-duplicate-key-then-column", 0) + 1
             okeys = ", ".join(f"c{i}{' DESC' if d else ''}" for i, d in keys)
             r0 = rl.sql(base)
             res["evals"] += 1
